@@ -519,10 +519,16 @@ package dnsmsg
 //@     invariant rangeindex_2 == 1 ==> sameSlice(rs, old(m.Authorities), 0, len(rs)) && forall(k, 0, len(rs), rs[k] == nil || rs[k] == old(m.Authorities[k]))
 //@     invariant rangeindex_2 == 2 ==> sameSlice(rs, old(m.Additionals), 0, len(rs)) && forall(k, 0, len(rs), rs[k] == nil || rs[k] == old(m.Additionals[k]))
 
+// two messages that share no section array (releasing one leaves the other's sections alone)
+//@ spec func noSecOf(s []Resource, b *Msg) bool = s == nil || (!sameObj(s, b.Answers) && !sameObj(s, b.Authorities) && !sameObj(s, b.Additionals))
+//@ spec func sepMsgs(a *Msg, b *Msg) bool = a != b && (a.Questions == nil || !sameObj(a.Questions, b.Questions)) && noSecOf(a.Answers, b) && noSecOf(a.Authorities, b) && noSecOf(a.Additionals, b)
+// a message made of objects of its own: its section arrays and every question / record in them are new
+//@ spec func ownSecs(m *Msg) bool = (m.Questions == nil || fresh(m.Questions)) && (m.Answers == nil || fresh(m.Answers)) && (m.Authorities == nil || fresh(m.Authorities)) && (m.Additionals == nil || fresh(m.Additionals)) && freshElems(m)
 //@ func UnpackMsg(msg []byte) (m *Msg, err error)
 //@   props C01 C02 C20
 //@   modifies nothing
 //@   ensures err == nil ==> m != nil && fresh(m) && wfMsg(m) && freshElems(m)
+//@   ensures [C20:decoded-message-owns-its-objects] err == nil ==> ownSecs(m)
 //@   ensures err != nil ==> m == nil
 //@   ensures [C02:header] err == nil ==> len(msg) >= 12 && m.ID == BE16(msg, 0) && m.Response == ((BE16(msg, 2) & 0x8000) != 0)
 //@             && m.Truncated == ((BE16(msg, 2) & 0x0200) != 0) && m.RecursionDesired == ((BE16(msg, 2) & 0x0100) != 0)
@@ -719,6 +725,7 @@ package dnsmsg
 //@   ensures wfRecs(m.Additionals)
 //@   ensures [C12:every-opt-removed] noOPT(m.Additionals)
 //@   ensures len(m.Additionals) <= old(len(m.Additionals)) && sameSlice(m.Additionals, old(m.Additionals), 0, len(m.Additionals))
+//@   ensures [C20:adds-no-record] forall(k, 0, len(m.Additionals), exists(j, 0, len(old(m.Additionals)), old(m.Additionals[j]) == m.Additionals[k]))
 //@   loop 1:
 //@     modifies m.Additionals, obj(m.Additionals), elems(old(m.Additionals))
 //@     invariant wfRecs(m.Additionals) && len(m.Additionals) <= loopOld(len(m.Additionals)) && sameSlice(m.Additionals, loopOld(m.Additionals), 0, len(m.Additionals))
@@ -783,6 +790,7 @@ package dnsmsg
 //@   ensures [C02:no-reorder-elements] size <= 0 ==> forall(k, 0, len(m.Additionals), m.Additionals[k] == old(m.Additionals[k]))
 //@   ensures [C02:untouched-when-unlimited] size <= 0 ==> objKept(m.Additionals)
 //@   ensures [C20:own-array-kept] m.Additionals == nil || sameObj(m.Additionals, old(m.Additionals)) || fresh(m.Additionals)
+//@   ensures [C20:no-record-added] len(m.Additionals) <= old(len(m.Additionals)) && (err == nil ==> len(m.Additionals) == old(len(m.Additionals)))
 //@   ensures wfMsg(m)
 //@   loop 1:
 //@     modifies b[12:len(b)], obj(compressionMap), msgHdr.Truncated
